@@ -189,8 +189,11 @@ def run(ctx):
                                                   "model": [sorted(mn), sorted(msol), sorted(mda)], "case": case})
             if wi < 2:
                 res.sample({"source": case["source"], "nodes": sorted(inodes), "solid": sorted(isolid), "dashed": sorted(idashed), "dotted": sorted(idotted)})
+    from . import kf_witnesses
+    kf_witnesses.run_witness(res, "C18-KF1", kf_witnesses.c18_two_paths_one_signature,
+                             "two paths kept with one signature appear as a single node of the graph")
     pipeline.close_ref()
     res.rule = ("%d generated pipelines (every 5th with loads) x entry {eval with DOT export, keep}; nesting depth <= 8, shared sub-nodes, run-time-"
                 "argument keeps; one case = one pipeline, distinct by its signature map" % nworlds)
-    res.violations = res.violations[:5]
+    res.violations = [v for v in res.violations if not v.get('kf')][:5] + [v for v in res.violations if v.get('kf')]
     return res
